@@ -80,6 +80,11 @@ Lemma psk_auth_agree : forall (E : env) cp psk octets,
   Hdl.psk_auth E cp psk octets = Auth.psk_auth (e_prf E cp) psk octets.
 Proof. reflexivity. Qed.
 
+(** the test by which [Endpoint.dispatch] drops the responder IkeSa of an ignored IKE_SA_INIT request (written
+    literally there) is the regenerated [dispatch_drop_ignored] (fix 73b0c79 of finding F20) *)
+Lemma drop_ignored_agree : forall st, dispatch_drop_ignored st = Z.eqb st ST_INITIAL.
+Proof. reflexivity. Qed.
+
 (** the cookie test of the handler model is the regenerated rejection test [cookie_reject] *)
 Lemma cookie_test_agree : forall (E : env) sec (m : pmsg body) n addr,
   let expected := e_cookie E sec (be_encode 8 (Z.to_N (h_spi_i (p_hdr m))) ++ n ++ addr) in
